@@ -4,7 +4,7 @@
 From Coq Require Import List ZArith Bool Arith.
 Import ListNotations.
 From RV Require Import Gen.GenTermination Model.Retry Model.Machine Proofs.MachineP.
-From RV Require Import Lib.Str Model.Format Gen.GenUi Gen.GenMain Proofs.FormatP.
+From RV Require Import Lib.Str Model.Format Gen.GenUi Gen.GenMain Proofs.FormatP Gen.GenFilter Model.FilterArgs Proofs.FilterArgsP.
 
 (** Containment: take two worlds that agree on run r (its description, what its processes do, the
     builds it needs) and differ arbitrarily in every other run - other runs may succeed, fail from
@@ -100,6 +100,22 @@ Proof.
   apply format_app; [apply format_escape | reflexivity].
 Qed.
 Print Assumptions C10_messages_never_fail.
+
+(** Usage errors: every argument after the experiment name reaches the filter chain of _RunFilter (read off
+    rebench.py and configurator.py on every run).  For EVERY argument string the chain either accepts it through one
+    of its branches or ends in the ConfigurationError that becomes the diagnostic with exit status 3 - it can never
+    index beyond the parts the argument has (an IndexError traceback; before the repair ff11444 the argument `e` did). *)
+Theorem C10_filter_arguments_total :
+  (forall s, classify_arg s <> FIndexError)
+  /\ chain_ends_in_configuration_error = true /\ every_argument_reaches_the_filters = true.
+Proof. split; [exact filter_arguments_total | split; reflexivity]. Qed.
+Print Assumptions C10_filter_arguments_total.
+
+Example C10_filter_examples :
+  classify_arg [101]%N = FUnknown /\ classify_arg [101; 58; 69]%N = FAccept 0 LExecutor
+  /\ classify_arg [115; 58; 83; 58; 66]%N = FAccept 2 LSuite /\ classify_arg [116; 58; 97; 58; 98]%N = FUnknown
+  /\ classify_arg [113; 58; 122]%N = FUnknown.
+Proof. vm_compute. repeat split; reflexivity. Qed.
 
 (** Non-vacuity: run 0 always fails, run 1 succeeds; and the same run 1 next to a succeeding run 0. *)
 Definition w_fail : world :=
